@@ -172,7 +172,7 @@ def run(prog: Program, chk: Check):
                               "sub_seqno": d.get("sub_seqno") if d.has("sub_seqno") else None})
             return None
 
-        def construct(ci):
+        def construct(ci, args=(), kwargs=None):
             if ci.name == "MDF_MESSAGE_TRAFFIC":
                 return Obj(ci, ci.name, msg_type=FixedArray(KS, 0), msg_count=FixedArray(KS, 0))
             raise AnalysisError(f"C18 vocabulary exceeded: construction of {ci.name} in send_traffic")
